@@ -36,7 +36,7 @@ def gen_run(ctx, genprop, subdir):
     if rc != 0:
         raise RuntimeError("vharness gen-run failed: " + o[-500:])
     model = {}
-    exe = os.path.join(C.LEAN, ".lake", "build", "bin", "vdriver")
+    exe = C.vdriver_exe()
     if os.path.exists(exe):
         if C.run_vdriver_parallel(os.path.join(out, "lean.tsv"), os.path.join(out, "model.tsv"), ctx.log):
             model = C.read_tsv(os.path.join(out, "model.tsv"))
